@@ -6,6 +6,7 @@ import (
 	"testing"
 
 	"github.com/gittuf/gittuf/pkg/githash"
+	"github.com/gittuf/gittuf/pkg/gitstore"
 	"github.com/gittuf/gittuf/pkg/rsl"
 	"github.com/gittuf/gittuf/verif/evid"
 	"github.com/gittuf/gittuf/verif/hist"
@@ -219,39 +220,56 @@ type c17Replay struct {
 	Start    string   `json:"start"`
 	Choices  []int    `json:"choices"`
 	Trace    []string `json:"trace,omitempty"`
+	Lane     string   `json:"lane,omitempty"` // "" = in-memory store, "G" = real git repository
 }
 
-// c17Check evaluates the oracle on one complete execution.
+// c17Check evaluates the oracle on one complete execution of lane M.
 func c17Check(sc c17Scenario, x *c17Exec, col *evid.Collector) {
 	base, w := c17World(sc.Start)
 	writers := c17Writers(sc, base, w)
-	startLen := len(world.WalkRSL(base))
-	log := world.WalkRSL(x.final)
+	names, contents := []string{}, []string{}
+	for _, wr := range writers {
+		names = append(names, wr.Name)
+		contents = append(contents, wr.Content)
+	}
 	rp := c17Replay{Scenario: sc.Name, Start: sc.Start, Choices: x.choices(), Trace: x.trace}
 	where := fmt.Sprintf("%s from %s, schedule %s", sc.Name, sc.Start, strings.Join(x.trace, " | "))
+	c17Judge(sc, "M", where, rp, names, contents, x.errs, len(world.WalkRSL(base)), world.WalkRSL(x.final), x.final, col)
+}
+
+// c17Judge is the oracle shared by both lanes: log is the final chain read raw
+// (newest first), readers is a handle on the final store for pkg/rsl's readers.
+func c17Judge(sc c17Scenario, lane, where string, rp c17Replay, names, contents []string, errs []error, startLen int, log []world.RSLEntry, readers gitstore.Storer, col *evid.Collector) {
 	outcome := []string{}
-	for i, wr := range writers {
+	added := log
+	if len(log) >= startLen {
+		added = log[:len(log)-startLen]
+	} else {
+		col.Violation("C17:earlier-entries-lost", fmt.Sprintf("%s: the log had %d entries before and has %d after", where, startLen, len(log)), rp)
+		return
+	}
+	for i, name := range names {
 		count := 0
-		for _, e := range log[:len(log)-startLen] {
-			if strings.Contains(e.Text, wr.Content) {
+		for _, e := range added {
+			if strings.Contains(e.Text, contents[i]) {
 				count++
 			}
 		}
 		switch {
-		case x.errs[i] == nil && count == 0:
-			col.Violation("C17:lost-entry-reported-as-recorded", fmt.Sprintf("%s: %s returned nil but its entry is not in the log", where, wr.Name), rp)
-		case x.errs[i] == nil && count > 1:
-			col.Violation("C17:entry-appears-more-than-once", fmt.Sprintf("%s: %s appears %d times", where, wr.Name, count), rp)
-		case x.errs[i] != nil && count > 0:
-			col.Violation("C17:failed-operation-left-a-trace", fmt.Sprintf("%s: %s failed (%v) but its entry is in the log", where, wr.Name, x.errs[i]), rp)
+		case errs[i] == nil && count == 0:
+			col.Violation("C17:lost-entry-reported-as-recorded", fmt.Sprintf("%s: %s returned nil but its entry is not in the log", where, name), rp)
+		case errs[i] == nil && count > 1:
+			col.Violation("C17:entry-appears-more-than-once", fmt.Sprintf("%s: %s appears %d times", where, name, count), rp)
+		case errs[i] != nil && count > 0:
+			col.Violation("C17:failed-operation-left-a-trace", fmt.Sprintf("%s: %s failed (%v) but its entry is in the log", where, name, errs[i]), rp)
 		}
-		if x.errs[i] == nil {
+		if errs[i] == nil {
 			outcome = append(outcome, "ok")
 		} else {
 			outcome = append(outcome, "err")
 		}
 	}
-	col.Class("%s/%s/%s/log+%d", sc.Name, sc.Start, strings.Join(outcome, ","), len(log)-startLen)
+	col.Class("%s/%s/%s/%s/log+%d", lane, sc.Name, sc.Start, strings.Join(outcome, ","), len(added))
 	// chain shape and numbering on raw commits
 	if msg := world.CheckChain(log); msg != "" {
 		sig := "C17:log-not-a-valid-chain"
@@ -273,13 +291,13 @@ func c17Check(sc c17Scenario, x *c17Exec, col *evid.Collector) {
 	// every reader can walk it end to end with a cold cache
 	rsl.ResetCacheForVerif()
 	if len(log) > 0 {
-		if _, _, err := rsl.GetFirstEntry(x.final); err != nil {
+		if _, _, err := rsl.GetFirstEntry(readers); err != nil {
 			col.Violation("C17:readers-cannot-walk-the-log", fmt.Sprintf("%s: GetFirstEntry: %v", where, err), rp)
 			return
 		}
 		first, _ := githash.NewHash(log[len(log)-1].ID)
 		last, _ := githash.NewHash(log[0].ID)
-		if _, _, err := rsl.GetReferenceUpdaterEntriesInRange(x.final, first, last); err != nil {
+		if _, _, err := rsl.GetReferenceUpdaterEntriesInRange(readers, first, last); err != nil {
 			col.Violation("C17:readers-cannot-walk-the-log", fmt.Sprintf("%s: range reader: %v", where, err), rp)
 		}
 	}
@@ -357,6 +375,10 @@ func TestC17(t *testing.T) {
 			return
 		}
 		for _, sc := range scs {
+			if sc.Name == r.Scenario && sc.Start == r.Start && r.Lane == "G" {
+				c17GReplay(t, sc, r, col)
+				return
+			}
 			if sc.Name == r.Scenario && sc.Start == r.Start {
 				for round := 0; round < 5; round++ {
 					x := c17Run(sc, r.Choices)
@@ -379,6 +401,23 @@ func TestC17(t *testing.T) {
 			bound = bound3
 		}
 		c17Explore(sc, bound, col, &item)
+	}
+	// lane G: the same exploration on real git repositories
+	boundG2, boundG3 := 2, 1
+	if thorough {
+		boundG2, boundG3 = -1, 2
+	}
+	col.Bound("lane_g_preemption_bound_2_writers", map[bool]any{true: "unbounded", false: boundG2}[boundG2 < 0])
+	col.Bound("lane_g_preemption_bound_3_writers", boundG3)
+	for _, sc := range scs {
+		if strings.Contains(sc.Name, "stage") {
+			continue
+		}
+		bound := boundG2
+		if strings.Count(sc.Name, "+") == 2 {
+			bound = boundG3
+		}
+		c17GExplore(t, sc, bound, col, &item)
 	}
 	// states := schedules (each complete schedule ends in one final state)
 	col.Sample(map[string]any{"scenario": "record+record from log2", "example_schedule": c17Run(scs[1], []int{0, 0, 1}).trace})
